@@ -18,6 +18,7 @@ import (
 	"github.com/idena-network/idena-go/blockchain/attachments"
 	"github.com/idena-network/idena-go/blockchain/types"
 	"github.com/idena-network/idena-go/common"
+	"github.com/idena-network/idena-go/core/appstate"
 	"github.com/idena-network/idena-go/vm/wasm"
 	"github.com/idena-network/idena-wasm-binding/lib"
 )
@@ -105,12 +106,22 @@ func (n *Node) RunWasmShadow(height uint64, hdr *types.Header, tx *types.Transac
 	if err != nil {
 		return
 	}
+	return n.RunWasmShadowOn(st, hdr, tx, gasLimit)
+}
+
+// RunWasmShadowOn is RunWasmShadow on a given throw-away state (left as it was found: the run does
+// not commit, the escrow is undone).
+func (n *Node) RunWasmShadowOn(st *appstate.AppState, hdr *types.Header, tx *types.Transaction, gasLimit uint64) (res WasmShadowResult) {
 	sender, _ := types.Sender(tx)
 	ctx := wasm.NewContractContext(tx)
 	amount := tx.AmountOrZero()
 	if amount.Sign() > 0 {
 		st.State.SubBalance(sender, amount)
 		st.State.AddBalance(ctx.ContractAddr(), amount)
+		defer func() {
+			st.State.AddBalance(sender, amount)
+			st.State.SubBalance(ctx.ContractAddr(), amount)
+		}()
 	}
 	limit := gasLimit * 100 // costs.GasToWasmGas
 	var rec *recHost
